@@ -35,7 +35,7 @@ SCOPE_EXTRA = {"mingus.midi.midi_file_out", "mingus.midi.midi_track", "mingus.mi
 
 # (module, function qualname, parameter) -> reason
 PARAM_MUTATION_EXCEPTIONS = {
-    ("mingus.core.intervals", "invert", "interval"): "reverse / copy / reverse: net effect zero (decided semantically by R-C03-7)",
+    ("mingus.core.intervals", "invert", "interval"): "reverse / copy / reverse: net effect zero (decided semantically: C03's invert rule, run here as R-C15-3 invert)",
     # '*': whichever function of the module threads the accumulator (from_shorthand and the helper it recurses through)
     ("mingus.core.chords", "*", "slash"): "internal recursion parameter: documented 'should not be given'; the only in-package call sites pass the fresh result of a recursive call",
     ("mingus.core.chords", "determine_extended_chord5.<locals>.inversion_exhauster", "polychords"): "nested helper, called with a fresh [] by its parent",
@@ -76,6 +76,9 @@ def run(ctx):
     n1 = rule_class_defaults(ctx, repo, mods, "R-C15-1")
     rule_memo_escape(ctx, repo)
     n3 = rule_param_mutation(ctx, repo, mods, "R-C15-3")
+    # the one function excepted because it undoes what it does to its argument: decided by running it
+    from . import c03
+    c03.rule_invert(ctx, repo.mod("mingus.core.intervals"), R="R-C15-3")
     n4 = rule_module_state(ctx, repo, [m for n, m in sorted(repo.modules.items()) if in_scope(n) or n in ("mingus.extra.tunings",)], "R-C15-4")
     rule_copies(ctx, repo)
     rule_stored_once(ctx, repo)
@@ -707,6 +710,35 @@ def rule_stored_once(ctx, repo):
                     elif any(a is b for a in es[i][2] for b in es[j][2]):
                         ok, why = False, "entries %d and %d hold the same Note object: transposing the track moves that note twice" % (i, j)
         ctx.check(ok, R, "from_chords.pieces[%s]" % label, ffc.where(), "Track.from_chords(<%s>)" % label, why)
+
+    # Track.has_room asks a question: the probe it places its trial entry in is no part of the track
+    fhr = repo.find_method(tci, "has_room")
+    if fhr is not None:
+        def go3(it):
+            t = new(it, tci)
+            it.call_method(t, "add_notes", ["C", 4], {}, None)
+            it.call_method(t, "add_notes", [None, 8], {}, None)
+            bars = it.getattr(t, "bars")
+            rows = it.getattr(bars[0], "bar")
+            before = (list(bars), [list(r) for r in rows], it.getattr(bars[0], "current_beat"))
+            answers = [it.call_method(t, "has_room", [v], {}, None) for v in (4, 2, 4, 1, 8)]
+            bars2 = it.getattr(t, "bars")
+            rows2 = it.getattr(bars2[0], "bar")
+            return before, (list(bars2), [list(r) for r in rows2], it.getattr(bars2[0], "current_beat")), answers, rows is rows2
+        try:
+            ps = explore(lambda ch: Interp(repo, ch, max_depth=60), go3)
+        except CannotDecide as e:
+            raise AnalysisError("Track.has_room on a track with an unfinished bar: %s" % e)
+        ok, why = len(ps) == 1 and ps[0].kind == "return", "outcome %s" % [(p.kind, short(repr(p.value), 80)) for p in ps]
+        if ok:
+            before, after, answers, same_list = ps[0].value
+            if len(before[0]) != len(after[0]) or any(a is not b for a, b in zip(before[0], after[0])) or len(before[1]) != len(after[1]) \
+                    or any(len(x) != len(y) or any(p_ is not q_ and p_ != q_ for p_, q_ in zip(x, y)) for x, y in zip(before[1], after[1])) or before[2] != after[2]:
+                ok, why = False, "five questions later the bar holds %d entries (before: %d), current beat %r (before: %r): the trial entries went into the track" % (
+                    len(after[1]), len(before[1]), after[2], before[2])
+            elif answers != [True, True, True, False, True]:
+                ok, why = False, "has_room(4), (2), (4), (1), (8) on a 4/4 bar holding 3/8 answer %s, expected [True, True, True, False, True]" % (answers,)
+        ctx.check(ok, R, "has_room.leaves-the-track", fhr.where(), "Track.has_room(v) five times on a track whose bar holds a quarter and an eighth rest", why)
 
 
 # ------------------------------------------------------------------------------ R-C15-6
